@@ -44,7 +44,27 @@ pub fn corpus() -> Vec<CorpusFont> {
     v
 }
 
+/// test hook: `--probe-dag=LEVELS,FANOUT` times one lookup+draw of the top glyph of a composite fan-out DAG
+fn probe_dag(ctx: &mut Ctx, arg: &str) {
+    let mut it = arg.split(',');
+    let levels: usize = it.next().and_then(|s| s.parse().ok()).unwrap_or(10);
+    let fanout: usize = it.next().and_then(|s| s.parse().ok()).unwrap_or(2);
+    let f = ttgen::dag_font(levels, fanout);
+    let bytes = f.build();
+    let mut spec = GroupSpec::new("probe", 0, 0);
+    spec.index = (f.glyphs.len() - 1) as u32;
+    let name = format!("ttcomposite-dag(levels={},fanout={})", levels, fanout);
+    let fc = FontCase { name: &name, mutation: "", category: "ttcomposite", bytes: &bytes };
+    let t0 = vf_core::thread_cpu_ns();
+    exec_case(ctx, &fc, &spec, None);
+    eprintln!("probe {} bytes={} cpu_ms={}", name, bytes.len(), (vf_core::thread_cpu_ns() - t0) / 1_000_000);
+}
+
 pub fn workload(ctx: &mut Ctx, args: &Args) {
+    if let Some(a) = args.extra.iter().find_map(|a| a.strip_prefix("--probe-dag=")) {
+        probe_dag(ctx, a);
+        return;
+    }
     ctx.rule = "a (font bytes, mutation, configuration group) case in which the font opened and at least one public \
                 operation returned Ok/Some or a domain error/None (not merely 'font failed to open'); for the IFT client a \
                 (font, subset definition, patch map, patch bytes, decoder) tuple for which selection or application returned a value. \
@@ -60,9 +80,14 @@ pub fn workload(ctx: &mut Ctx, args: &Args) {
     let fonts = corpus();
     ctx.count("corpus_fonts", if ctx.shard.0 == 0 { fonts.len() as u64 } else { 0 });
     let mut items = Items { next: 0 };
-    let only: Option<String> = args.extra.iter().find_map(|a| a.strip_prefix("--only=").map(|s| s.to_string()));
+    // `--only=a,b` / VF_C02_ONLY=a,b restrict the sections (development / mutation self-test aid; the
+    // set of work items of a section does not depend on which other sections run)
+    let only: Option<String> = args.extra.iter().find_map(|a| a.strip_prefix("--only=").map(|s| s.to_string())).or(std::env::var("VF_C02_ONLY").ok());
     let want = |s: &str| only.as_deref().map(|o| o.split(',').any(|x| x == s)).unwrap_or(true);
 
+    if want("regress") {
+        sec_regressions(ctx, &fonts, &mut items);
+    }
     if want("corpus") {
         sec_corpus(ctx, &fonts, &mut items);
     }
@@ -78,6 +103,7 @@ pub fn workload(ctx: &mut Ctx, args: &Args) {
         mutants::sec_extreme(ctx, &fonts, &mut items);
     }
     if want("ttprog") {
+        ttgen::sec_dag_probes(ctx, &mut items);
         ttgen::sec_programs(ctx, &mut items);
     }
     if want("cff") {
@@ -116,6 +142,34 @@ pub fn exercise_font(ctx: &mut Ctx, label: &str, bytes: &[u8]) {
     }
 }
 
+/// Deterministic (seed-independent) regression inputs for defects this check isolated.
+fn sec_regressions(ctx: &mut Ctx, fonts: &[CorpusFont], items: &mut Items) {
+    // (font, file offset, new byte, group): auto-hinter "long" blue-zone search used to spin forever
+    // (blues.rs: `continue` skipping the `last == segment_first` exit test), fixed in b26010c.
+    let regs: [(&str, usize, u8, &str); 3] = [
+        ("notoserifhebrew_autohint_metrics.ttf", 398, 0x14, "hintall:1"),
+        ("notoserifhebrew_autohint_metrics.ttf", 398, 0x14, "hintall:2"),
+        ("notoserifhebrew_autohint_metrics.ttf", 398, 0x14, "hint:3:0"),
+    ];
+    for (name, pos, val, group) in regs {
+        if !items.mine(ctx) {
+            continue;
+        }
+        let Some(f) = fonts.iter().find(|f| f.name == name) else {
+            ctx.inconclusive(format!("regression font {} not in the corpus", name));
+            continue;
+        };
+        let mut b = f.data.to_vec();
+        if pos < b.len() {
+            b[pos] = val;
+        }
+        let m = format!("byte@{}={:#x}", pos, val);
+        let fc = FontCase { name, mutation: &m, category: "regression", bytes: &b };
+        exec_case(ctx, &fc, &GroupSpec::new(group, 0, 0), None);
+        ctx.count("regression_inputs", 1);
+    }
+}
+
 /// Full configuration product on every pristine corpus font; one work item per
 /// (font, group).
 fn sec_corpus(ctx: &mut Ctx, fonts: &[CorpusFont], items: &mut Items) {
@@ -141,7 +195,7 @@ fn sec_misuse(ctx: &mut Ctx, fonts: &[CorpusFont], items: &mut Items) {
         .iter()
         .filter(|f| has_table(&f.data, b"glyf") || has_table(&f.data, b"CFF ") || has_table(&f.data, b"CFF2"))
         .collect();
-    let stride = ctx.tier.pick(3usize, 1usize);
+    let stride = if ctx.budget(100, 300) >= 300 { 1 } else if ctx.budget(100, 300) >= 100 { 2 } else { 6 };
     let mut k = 0usize;
     for (ai, a) in with_outlines.iter().enumerate() {
         for (bi, b) in with_outlines.iter().enumerate() {
@@ -182,13 +236,26 @@ fn replay(ctx: &mut Ctx, _args: &Args, rec: &Value, input: Option<&[u8]>) {
         ift::run_item(ctx, i as usize, case["ift_seed"].as_str().and_then(|s| s.parse().ok()).unwrap_or(ctx.seed));
         return;
     }
-    let (Some(spec), Some(bytes)) = (GroupSpec::from_json(&case["spec"]), input) else {
+    // panic violations carry the spec; slow / abort / hang records carry the case label
+    let from_label = [&detail["label"], &detail["case"], &rec["signature"]]
+        .iter()
+        .filter_map(|v| v.as_str())
+        .filter_map(|s| GroupSpec::from_label(s.split_once(':').filter(|(k, _)| matches!(*k, "slow" | "hang") || k.starts_with("abort") || k.starts_with("exit")).map(|x| x.1).unwrap_or(s)))
+        .next();
+    if let Some((name, _, _)) = &from_label {
+        if let Some(i) = name.strip_prefix("ift#").and_then(|s| s.parse::<usize>().ok()) {
+            ift::run_item(ctx, i, rec["seed"].as_u64().unwrap_or(ctx.seed));
+            return;
+        }
+    }
+    let spec = GroupSpec::from_json(&case["spec"]).or(from_label.as_ref().map(|x| x.2.clone()));
+    let (Some(spec), Some(bytes)) = (spec, input) else {
         ctx.inconclusive("replay record has no case spec / input bytes; nothing re-run");
         return;
     };
     let partner: Option<Vec<u8>> = spec.partner.as_ref().and_then(|n| corpus().into_iter().find(|f| &f.name == n).map(|f| f.data.to_vec()));
-    let name = case["font"].as_str().unwrap_or("replay").to_string();
-    let mutation = case["mutation"].as_str().unwrap_or("").to_string();
+    let name = case["font"].as_str().map(|s| s.to_string()).or(from_label.as_ref().map(|x| x.0.clone())).unwrap_or("replay".into());
+    let mutation = case["mutation"].as_str().map(|s| s.to_string()).or(from_label.as_ref().map(|x| x.1.clone())).unwrap_or_default();
     let fc = FontCase { name: &name, mutation: &mutation, category: "replay", bytes };
     let o = exec_case(ctx, &fc, &spec, partner.as_deref());
     ctx.extra.insert("replay".into(), json!({"panicked": o.panicked, "opened": o.opened, "answered": o.answered, "spec": spec.to_json()}));
